@@ -116,8 +116,10 @@ Proof.
   apply np_get_st.
   destruct (ds_ts s1 =? 0); [now apply Hfin|].
   apply np_put_st.
-  set (s2 := with_time s1 _ _).
-  assert (Hf2 : frame s s2) by (destruct Hf1 as [A B]; split; cbn; assumption).
+  match goal with |- np _ _ ?st _ => set (s2 := st) end.
+  assert (Hf2 : frame s s2).
+  { unfold s2. destruct Hf1 as [A B].
+    match goal with |- frame _ (if ?c then _ else _) => destruct c end; split; cbn; assumption. }
   destruct (get_field (dm_gmn dm) c_fieldNumTimeStamp) as [p|] eqn:Eg; [|now apply Hfin].
   destruct (entry_sound _ _ _ Eg) as (md & _ & F).
   specialize (Hm (ef_known _ _ _ _ F)).
